@@ -432,7 +432,55 @@ func getFromObjStm(r Getter, number uint32, sRef Reference, getInt getIntFn, enc
 		return nil, err
 	}
 
+	// An object whose value is an indirect reference ("n g R") may be stored
+	// in an object stream like any other; ReadObject stops after the first
+	// integer.  The member ends where the next one starts.
+	if a, ok := obj.(Integer); ok {
+		end := int64(-1)
+		for _, other := range contents.idx {
+			if o := int64(other.offs); o > int64(info.offs) && (end < 0 || o < end) {
+				end = o
+			}
+		}
+		if ref, ok := objStmMemberReference(contents.s, a, end); ok {
+			return ref, nil
+		}
+	}
+
 	return obj, nil
+}
+
+// objStmMemberReference checks whether the integer a, which has just been
+// read from s, is followed by a generation number and the keyword R before
+// the offset end (if end is not negative).
+func objStmMemberReference(s *scanner, a Integer, end int64) (Reference, bool) {
+	if a < 0 || a >= maxXRefSize {
+		return 0, false
+	}
+	if err := s.SkipWhiteSpace(); err != nil {
+		return 0, false
+	}
+	if end >= 0 && s.CurrentPos() >= end {
+		return 0, false
+	}
+	buf, _ := s.PeekN(1)
+	if len(buf) == 0 || buf[0] < '0' || buf[0] > '9' {
+		return 0, false
+	}
+	b, err := s.ReadInteger()
+	if err != nil || b < 0 || b > maxGeneration {
+		return 0, false
+	}
+	if err := s.SkipWhiteSpace(); err != nil {
+		return 0, false
+	}
+	if end >= 0 && s.CurrentPos() >= end {
+		return 0, false
+	}
+	if err := s.SkipString("R"); err != nil {
+		return 0, false
+	}
+	return NewReference(uint32(a), uint16(b)), true
 }
 
 func (r *Reader) getID(obj Object) ([][]byte, error) {
